@@ -36,6 +36,9 @@ class TaskHandler:
         self._pending = {}
         self._job_id = 0
         self._lock = threading.Lock()
+        # accepting a task (open check, hand over to the pool, book keeping) and closing are one step each: a task is
+        # either accepted before flush() closes the handler, and then awaited by it, or it is refused
+        self._accept_lock = threading.Lock()
         self._open = True
 
     def _next_id(self):
@@ -56,11 +59,12 @@ class TaskHandler:
         :param args: the args to pass to the function
         :return: a future that can be listened to for completion
         """
-        self.__check_open()
-        next_id = self._next_id()
-        # there is an at exit in threading that prevents submitting tasks after shutdown, but no api to check this
-        future = self._pool.submit(task, *args)
-        self._pending[next_id] = future
+        with self._accept_lock:
+            self.__check_open()
+            next_id = self._next_id()
+            # there is an at exit in threading that prevents submitting tasks after shutdown, but no api to check this
+            future = self._pool.submit(task, *args)
+            self._pending[next_id] = future
 
         # cannot use 'del' in lambda: https://stackoverflow.com/a/41953232/5151254
         def callback(_future: Future):
@@ -74,9 +78,11 @@ class TaskHandler:
 
     def flush(self):
         """Await completion of all pending tasks."""
-        self._open = False
-        # tasks remove themselves from pending when they complete, so work on a copy
-        for future in list(self._pending.values()):
+        with self._accept_lock:
+            self._open = False
+            # tasks remove themselves from pending when they complete, so work on a copy
+            pending = list(self._pending.values())
+        for future in pending:
             try:
                 future.result(10)
             except BaseException:
